@@ -29,6 +29,7 @@ LEVEL = "model_checking"
 SPEC_MUTANTS = [  # (Mutant, Mode)
     ("no_reslice_on_get", "serial"), ("no_final_flush", "serial"), ("flush_always", "serial"),
     ("drop_carry", "serial"), ("early_status", "serial"), ("sid_early_release", "conc"),
+    ("put_before_last_in", "serial"),   # mechanism M_PutAfterLastIn off: rejected by the ownership invariant BufOwned
 ]
 
 
@@ -99,7 +100,39 @@ def build_cases(ctx, exported):
         lines.append({"fam": "conc", "id": nid, "barrier": False, "scale": rng.choice([1, 1, 7, 300, 5000]),
                       "gz": i % 2, "g": [[rng.choice(single) for _ in range(rng.randint(1, 6))] for _ in range(g)]})
         nid += 1
+    # ---- blocked In: request A's k-th In call (mostly: its last, unterminated line) blocks before the bytes are
+    #      copied; request B, whose first read ends in the middle of a line (it writes a carry-over into a pooled
+    #      buffer), is served meanwhile; then A's In goes on.  Executed with GOMAXPROCS(1) and with the default.
+    a_any = [r for r in single if r["exp"] and has_symbol(r)]
+    a_tail = [r for r in a_any if r["body"][-1] != 0]
+    b_split = [r for r in single if len(r["sizes"]) >= 2 and not r["zr"] and r["body"][r["sizes"][0] - 1] != 0]
+    n_gate = 400 if quick else 4000
+    for i in range(n_gate):
+        if i % 10 < 7:
+            a, k = rng.choice(a_tail), -1
+        else:
+            a = rng.choice(a_any)
+            k = rng.randint(1, len(a["exp"]))
+        lines.append({"fam": "conc", "id": nid, "gate_k": k, "scale": rng.choice([1, 1, 5, 64]), "gz": 0,
+                      "g": [[a], [rng.choice(b_split)]]})
+        nid += 1
     return lines
+
+
+def window_in_trace(trace):
+    """the counterexample has a state in which request i's last In is pending (pc = inlast) while another request
+    holds the same event buffer: B took the buffer between A's Put and the moment A's In copies the bytes"""
+    for _, v in trace:
+        pcs = re.findall(r'"(\w+)"', v.get("pc", ""))
+        ids = re.findall(r"id \|-> (\d+)", v.get("eb", ""))
+        pool = re.findall(r"id \|-> (\d+)", v.get("poolE", ""))
+        for i, p in enumerate(pcs):
+            if p != "inlast" or i >= len(ids) or ids[i] == "0":
+                continue
+            for j, q in enumerate(pcs):
+                if j != i and j < len(ids) and ids[j] == ids[i] and q in ("getSid", "read", "chunk") and ids[i] not in pool:
+                    return True
+    return False
 
 
 def tlc_ok(ctx, *a, **kw):
@@ -137,6 +170,16 @@ def run(ctx):
                     raise vlib.Infra("spec mutant %s is not rejected by the invariants (%s/%s): the specification "
                                      "lost its discriminating power" % (mut, r.violated, r.kind))
                 side["killed"].append("%s->%s" % (mut, r.violated))
+            # the same mechanism switch against the OBSERVABLE invariants only, two interleaved requests: TLC must
+            # construct the window (B takes the buffer between A's Put and A's last In copying the bytes)
+            r = ctx.tlc("HttpChunk", "HttpChunk_mutobs.cfg", timeout=300, deadlock=False, workers=4,
+                        name="spec-mutant/put_before_last_in(observable,conc)")
+            if r.ok or r.kind != "invariant":
+                raise vlib.Infra("spec mutant put_before_last_in is not rejected by the observable invariants (%s/%s)"
+                                 % (r.violated, r.kind))
+            if not window_in_trace(r.trace):
+                raise vlib.Infra("counterexample of put_before_last_in does not show the hand-over window:\n%s" % r.out[-3000:])
+            side["killed"].append("put_before_last_in(conc,observable)->%s[window: other request holds the buffer of a pending In]" % r.violated)
         except BaseException as e:  # re-raised in the main thread
             side["exc"] = e
 
@@ -186,6 +229,10 @@ def evaluate(ctx, r, lines, n_exported, killed, conc):
             raise vlib.Infra("no second request found a pooled buffer: pool re-use is not exercised")
         if st["status_200"] == 0:
             raise vlib.Infra("no request was answered with 200")
+        if st["gate_in_blocked_while_other_request_served"] == 0 or st["gate_blocked_in_was_unterminated_last_line"] == 0:
+            raise vlib.Infra("the blocked-In window was never constructed")
+        if st["gate_pool_handover_probe_hits"] == 0:
+            raise vlib.Infra("a sync.Pool Put made inside the blocked In never reached the Get of the request served meanwhile")
 
     ctx.evaluations = st["requests"]
     ctx.traces_validated = st["requests"]
@@ -201,6 +248,9 @@ def evaluate(ctx, r, lines, n_exported, killed, conc):
         ctx.drift += st["model_drift_calls_on_error_requests"]
         vlib.log("MODEL-DRIFT: %d failed requests handed over other lines than the transcription (no property involved)"
                  % st["model_drift_calls_on_error_requests"])
+    if st.get("gate_other_request_did_not_finish_while_in_blocked"):
+        vlib.log("note: %d times the other request did not finish while an In call was blocked (no window, no verdict)"
+                 % st["gate_other_request_did_not_finish_while_in_blocked"])
     if st.get("conc_barrier_timeouts"):
         vlib.log("note: a rendezvous of concurrent requests inside Read was not reached (%d)" % st["conc_barrier_timeouts"])
     ctx.rule = ("case = 1-2 successive requests, each (body over {a,\\r,\\n} up to the length bound, split of the body "
@@ -208,14 +258,17 @@ def evaluate(ctx, r, lines, n_exported, killed, conc):
                 "TLC (%d cases); ALL of them replayed on the real plugin (Start address=off, ServeHTTP) plain and gzip, plus "
                 "%d seeded long-line derivations (symbols blown up to runs around the real read-buffer size) and %d seeded "
                 "concurrent rounds (2/4/8 parallel requests over disjoint alphabets, half of them with a rendezvous inside "
-                "Read). Non-trivial = serial cases in which a line crosses a read boundary (counted by the harness)."
-                % (n_exported, st["long_cases"], st["conc_cases"]))
+                "Read) and %d blocked-In windows (an In call of request A -- mostly its unterminated last line -- blocks before "
+                "the bytes are copied while request B with a line split over two reads is served; GOMAXPROCS 1 and default). "
+                "Non-trivial = serial cases in which a line crosses a read boundary (counted by the harness)."
+                % (n_exported, st["long_cases"], st["conc_cases"], st["gate_cases"]))
     for c in lines[:2] + [c for c in lines if c["fam"] == "long"][:1] + [c for c in lines if c["fam"] == "conc"][:1]:
         ctx.sample(c)
     ctx.assumptions += [
         "the body is what the transport delivers before io.EOF; a non-EOF reader error means the body is incomplete (a 200 is a violation then; the lines handed over before the error are not judged)",
         "lines are split on \\n only (\\r is an ordinary byte); empty lines are events (the pipeline's admission refuses them later)",
         "concurrent requests are attributed to bodies by disjoint alphabets; empty events only by their total number",
+        "controller.In may block before it copies the bytes (Pipeline.In waits for a free event first): the slice must stay intact until In returns",
         "HTTP/1.1 framing (chunked transfer, Content-Length) is net/http's business: the harness starts at ServeHTTP",
     ]
     recs = []
